@@ -15,6 +15,9 @@ func init() {
 		register("C15", k, c15Scenario)
 	}
 	register("C15", "muted-state-in-api-follows-reloads", c15Reloads)
+	// C06: the grouped view (incl. ?muted=false) shows exactly the live groups that are (not) muted now
+	register("C06", "muted-state-in-api-follows-reloads", c15Reloads)
+	multiplicity["C06/muted-state-in-api-follows-reloads"] = 2
 }
 
 // c15Reloads: the group's muted state as GET /api/v2/alerts/groups reports it must follow the flushes across
@@ -72,7 +75,7 @@ func c15Reloads(s *sc) {
 		if i == 0 {
 			s.must(in.Start(), "start")
 			t0 = time.Now()
-			_, err = in.PostAlerts([]AlertIn{{Labels: map[string]string{"alertname": "A", "grp": "m", "id": "m1"}, EndsAt: &end}})
+			_, err = in.PostAlerts([]AlertIn{{Labels: map[string]string{"alertname": "A", "grp": "m", "id": "m1"}, EndsAt: &end}, {Labels: map[string]string{"alertname": "A", "grp": "other", "id": "c1"}, EndsAt: &end}})
 			s.must(err, "post alert")
 		} else {
 			if err := in.Reload(); err != nil {
@@ -82,13 +85,26 @@ func c15Reloads(s *sc) {
 			t0 = time.Now()
 		}
 		phase := "configuration " + string(rune('1'+i)) + " (" + st.name + ")"
-		nBefore := len(in.Sink.Reqs())
+		// (notifications about m1 only: the control alert c1 on the ungated root route is notified on its own)
+		m1Reqs := func(reqs []Req) []Req {
+			var out []Req
+			for _, r := range reqs {
+				for _, a := range r.Msg.Alerts {
+					if a.Labels["id"] == "m1" {
+						out = append(out, r)
+						break
+					}
+				}
+			}
+			return out
+		}
+		nBefore := len(m1Reqs(in.Sink.Reqs()))
 		is := func(_ string, mb []string) bool { return strings.Join(mb, ",") == strings.Join(st.want, ",") }
 		// the group's first flush under this configuration comes group_wait after the (re)start of the dispatcher
 		if len(st.want) == 0 && nBefore == 0 {
 			// ungated and never notified so far (afterwards the notification log suppresses repeats for repeat_interval):
 			// the notification must go out; only then is the API view judged
-			sent := func(reqs []Req) bool { return len(reqs) > nBefore }
+			sent := func(reqs []Req) bool { return len(m1Reqs(reqs)) > nBefore }
 			if !in.Sink.WaitFor(t0.Add(gw+slack), sent) {
 				if in.Sink.WaitFor(t0.Add(gw+slack+late), sent) {
 					s.inconclusive("%s: notification later than group_wait+%s", phase, slack)
@@ -119,7 +135,7 @@ func c15Reloads(s *sc) {
 		if len(st.want) > 0 {
 			// gated: let one more group_interval pass; nothing may have been sent under this configuration
 			time.Sleep(gi + 300*time.Millisecond)
-			for _, r := range in.Sink.Reqs()[nBefore:] {
+			for _, r := range m1Reqs(in.Sink.Reqs())[nBefore:] {
 				if r.T.After(t0.Add(200 * time.Millisecond)) {
 					s.violate("gated-flush-notified", "%s: the group was notified %.2fs after the configuration was applied", phase, r.T.Sub(t0).Seconds())
 					return
@@ -129,6 +145,20 @@ func c15Reloads(s *sc) {
 				s.violate("muted-state-in-api-does-not-follow-the-flush", "%s: after a further flush the API reports mutedBy=%v, want %v", phase, mb2, st.want)
 				return
 			}
+		}
+		// ?muted=false lists exactly the live groups that are not muted now (the control group always, m1's iff ungated)
+		unm, err := in.GetGroupsQ("muted=false")
+		s.must(err, "GET groups muted=false")
+		hasM1, hasCtl := false, false
+		for _, g := range unm {
+			for _, a := range g.Alerts {
+				hasM1 = hasM1 || a.Labels["id"] == "m1"
+				hasCtl = hasCtl || a.Labels["id"] == "c1"
+			}
+		}
+		if hasM1 != (len(st.want) == 0) || !hasCtl {
+			s.violate("unmuted-groups-view-not-the-live-partition", "%s: the group of m1 is muted by %v now and the control group is never muted; GET /api/v2/alerts/groups?muted=false lists m1's group: %v, the control group: %v", phase, st.want, hasM1, hasCtl)
+			return
 		}
 		s.logf("%s: mutedBy=%v state=%s", phase, mb, stt)
 		s.count("state-after-reload-judged")
